@@ -96,10 +96,10 @@ def impl(d):
         return tx.get_txid() + "|" + tx.get_wtxid()
     if k == "hist":
         tx = tx_build(d["tx"])
-        out = [lib_tx_facts(tx)]
+        out = [guarded(lambda: lib_tx_facts(tx))]
         for m in d["muts"]:
             apply_mut_lib(tx, m)
-            out.append(lib_tx_facts(tx))
+            out.append(guarded(lambda: lib_tx_facts(tx)))
         return "|".join(out)
     if k in ("real", "parse"):
         tx = Transaction.from_raw(d["raw"])
